@@ -96,7 +96,7 @@ type NSGen struct {
 }
 
 var nsSegs = []string{"App", "Lib", "Db", "Util", "Model", "User", "Conn", "Str", "Http", "Foo", "Bar", "Baz", "Qux"}
-var nsFuncs = []string{"helper", "run", "make", "strlen", "Foo", "str"}
+var nsFuncs = []string{"helper", "run", "make", "strlen", "Foo", "str", "define", "class_exists", "defined"}
 var nsConsts = []string{"MAX", "VERSION", "Flag", "Foo", "DEBUG"}
 
 func (x *NSGen) r() *core.Rand { return x.g.R }
@@ -279,7 +279,13 @@ func (x *NSGen) constFetchOrClassConst(what string) *Node {
 func (x *NSGen) args() ([]*Node, []interface{}) {
 	var as []*Node
 	for i, n := 0, x.r().Intn(3); i < n; i++ {
-		e := x.expr(2)
+		var e *Node
+		if x.r().Chance(1, 4) {
+			// names inside string literals (define('A\\B\\C', ..), class_exists("A\\B")) are text: nothing is resolved, nothing touched
+			e = x.g.leaf("ScalarString", x.r().Pick("'App\\\\Config\\\\DEBUG'", "\"Lib\\\\Str\"", "'\\\\Foo\\\\bar'", "'App\\Str'", "'Db\\\\Conn\\\\MAX_SIZE'", "'Util\\\\helper'", "\"a\\\\\\\\b\""))
+		} else {
+			e = x.expr(2)
+		}
 		as = append(as, &Node{Kind: "Argument", Kids: []Kid{one("Expr", e)}, Parts: parts(e)})
 	}
 	return as, parts(t("("), sepList(as, ","), t(")"))
